@@ -413,7 +413,7 @@ class Gen:
         return w, kind
 
 
-def gen_init(g, mode, nocase, spoken, nlines=None):
+def gen_init(g, mode, nocase, spoken, nlines=None, allow_fail=True):
     r = g.rng
     ops = [f"begin {mode} {int(nocase)}"]
     lines = []
@@ -445,7 +445,7 @@ def gen_init(g, mode, nocase, spoken, nlines=None):
     flines = {"std": NOISEDICT, "min": [(b"<sil>", b"SIL")], "empty": [],
               "extra": NOISEDICT + [(b"[UH]", b"AH"), (b"<sil>(2)", b"SIL SIL")]}[fl]
     g.hit("fdict", fl)
-    if r.chance(0.03) and mode == "dict":
+    if allow_fail and r.chance(0.03) and mode == "dict":
         lines.append((b"<sil>", b"SIL"))  # must make dict_init fail
         g.hit("init_line", "special-word-in-main-dict")
     for w, p in lines:
@@ -720,7 +720,9 @@ def judge(c, binp, ops, must, phones, sil, mdef_line, label, model=True):
     c.violation({"kind": "dictionary history", "ops": sc, "mdef_line": mdef_line, "readable": readable,
                  "implementation_output": [l[:400] for l in ho], "exit_code": rc, "stderr_tail": err[-2500:],
                  "model_output": [l[:400] for l in mo] if model else None,
-                 "property_oracle_findings": [f"op {k} ({f2[k][:60]}): {what}" for k, what in bad2[:6]],
+                 "property_oracle_findings": ([f"the process died with exit code {rc} inside op {len(ho) - 1} ({f2[min(len(ho) - 1, len(f2) - 1)][:60]}): "
+                                               f"sanitizer report / assert / exit, see stderr_tail"] if rc != 0 else []) +
+                                             [f"op {k} ({f2[k][:60]}): {what}" for k, what in bad2[:6]],
                  "implementation_violates_property": impl_wrong,
                  "how_to_rerun": "python3 tools/check.py C16 --replay <this file>"}, impl_wrong)
     return False
@@ -940,7 +942,7 @@ def judge_batch(c, binp, batch, phones, sil, mdef_line, label):
 def gen_growth(g, phones, sil, mode, nadds):
     r = g.rng
     nocase = r.chance(0.3)
-    ops, lines, flines = gen_init(g, mode, nocase, mode == "dec", nlines=r.range(0, 6))
+    ops, lines, flines = gen_init(g, mode, nocase, mode == "dec", nlines=r.range(0, 6), allow_fail=False)
     o = shadow(phones, sil, nocase, lines, flines)
     must = set()
     if o is None:
